@@ -2,11 +2,12 @@
    Proved on the step model: entering DispatchTrip records the vehicle on the request (generated assign kernel), leaving it
    by any instruction clears the record (generated unassign kernel), and a vehicle that runs out of energy on its way
    releases the request too (the repaired _go_out_of_service_on_empty).
-   PARTIAL: the state invariant over whole histories is decided by correspondence + monitor c17_dispatch. *)
+   The state invariant over whole histories is C17_invariant_over_histories below.  PARTIAL only in: "under the built-in
+   dispatcher at most one vehicle travels to a request" (decided by eng_c12: the Dispatcher never offers an assigned request). *)
 From Hive.Base Require Import Prelude.
 From Hive.Model Require Import Types KernelBase SimOps States Step.
 From Hive.Gen Require Import Kernels.
-From Hive.Proofs Require Import Trip.
+From Hive.Proofs Require Import Trip VehFrame Macro DispInv.
 
 Theorem C17_enter_assigns : forall env vid rid route s s', enter_dispatch_trip env vid rid route s = Ok s' ->
   exists r, find rid (requests s) = Some r /\
@@ -28,5 +29,18 @@ Theorem C17_out_of_energy_releases : forall env s vid v rid route r s',
   go_out_of_service_on_empty env s vid = Ok s' ->
   exists r', find rid (requests s') = Some r' /\ r_disp r' = None.
 Proof. exact out_of_energy_releases_request. Qed.
+(* THE state invariant, over every finite history of operations of the step alphabet with instructions from ANY controller (one
+   instruction per vehicle per step, as StepSimulation guarantees; admitted rows carry no dispatched vehicle, as Request.from_row
+   guarantees; geofence constant True, as both road networks answer at this commit): whenever a waiting request records a
+   dispatched vehicle, that vehicle exists and its current activity is DispatchTrip to exactly that request.  Proved through the
+   macro frame theorem (Proofs/Macro.v: every step decomposes into exit-then-enter transitions out of the CURRENT activity,
+   _perform_update of the CURRENT activity, single cancellations / admissions / price / driver updates). *)
+Theorem C17_invariant_over_histories : forall env, (forall g, e_fence env g = true) ->
+  forall ops s0, vkeys s0 -> Inv_disp s0 -> Forall op_ok ops ->
+  vkeys (fold_left (step_op env) ops s0) /\ Inv_disp (fold_left (step_op env) ops s0).
+Proof. exact disp_invariant. Qed.
+Theorem C17_initial_state : forall s, requests s = PM.empty _ -> Inv_disp s.
+Proof. exact Inv_disp_no_requests. Qed.
+Print Assumptions C17_invariant_over_histories. Print Assumptions C17_initial_state.
 Print Assumptions C17_enter_assigns. Print Assumptions C17_exit_unassigns.
 Print Assumptions C17_assign_unassign_kernels. Print Assumptions C17_out_of_energy_releases.
